@@ -207,9 +207,20 @@ def run_filenames_impl(case, scratch):
             snaps.append(list(got))
         src.stop()
         await vloop.advance(0.5, loop)
+        # a second, independent source over the same directory (same process): it has seen nothing yet
+        src2 = Stream.filenames(d if case["style"] == "dir" else os.path.join(d, "*"), poll_interval=0.5,
+                                asynchronous=True, loop=IOLoop.current())
+        src2.sink(second.append)
+        src2.start()
+        await vloop.settle(loop)
+        src2.stop()
+        await vloop.advance(0.5, loop)
         return snaps
 
+    second = []
     snaps = vloop.run(main)
+    case["_second"] = [int(os.path.basename(p)[1:]) for p in second]
+    case["_present"] = sorted(int(f[1:]) for f in os.listdir(d))
     return [[int(os.path.basename(p)[1:]) for p in s] for s in snaps]
 
 
@@ -399,6 +410,11 @@ def check_case(ctx, case, answers, scratch):
                     ctx.coverage["traces_validated_against_impl"] += 1
         elif kind == "filenames":
             snaps = run_filenames_impl(case, sub)
+            second, present = case.pop("_second"), case.pop("_present")
+            if second != present:
+                ctx.failure("filenames:second-source", "a second filenames source over the same directory, started after the first one was "
+                            "stopped, emitted %r; the directory holds %r (each source delivers every path once)" % (second, present), case,
+                            oracle="every source delivers every path exactly once")
             # oracle: batch added at each poll is sorted and = new files; no duplicates overall
             seen = []
             err = None
